@@ -330,7 +330,7 @@ def run_dequeue(run, P):
             run.instance('R-CNT-CON', '%s: node removed into %s' % (name, v_name(f, v)))
         ctx = solve(f, Env({'rm': ()}), on_event, None, keys, R, key_fn=lambda e: (e.ts.get('rm'), tuple(e.nullf(v) for v in sorted(outs))), on_branch=on_branch, max_envs=512)
         run.stats['cnt_dequeue_solver_steps'] += ctx.steps
-    run.require(n >= 2 or run.fixture_mode, 'R-CNT-CON(e): fewer than 2 functions remove a node from the send queue into a variable')
+    run.require_count(n >= 2 or run.fixture_mode, 'R-CNT-CON(e): fewer than 2 functions remove a node from the send queue into a variable')
 
 
 def v_name(f, v):
@@ -478,7 +478,7 @@ def run_counted_queued(run, P):
             return env
         ctx = solve(f, Env({}), on_event, None, keys, R, key_fn=lambda e: (e.ts.get('sent'), e.ts.get('con'), e.ts.get('np'), e.ts.get('xp'), e.ts.get('q'), e.ts.get('dec')), on_branch=on_branch, max_envs=512)
         run.stats['cnt_counted_queued_steps'] += ctx.steps
-    run.require(n >= 1 or run.fixture_mode, 'R-CNT-CON(f): no function both counts through coap_send_pdu() and queues through coap_wait_ack()')
+    run.require_count(n >= 1 or run.fixture_mode, 'R-CNT-CON(f): no function both counts through coap_send_pdu() and queues through coap_wait_ack()')
 
 
 # ---------------------------------------------------------------------------------------------------------------
@@ -542,7 +542,7 @@ def run_reset_drains(run, P):
             if not env.ts.get('done'):
                 chk(f['loc'], env, ctx)
         solve(f, Env({}), on_event, on_exit, keys, R, key_fn=lambda e: (e.ts.get('reset'), e.ts.get('drain'), e.ts.get('done')))
-    run.require(n >= 1 or run.fixture_mode, 'R-CNT-CON(g): no reset of con_active outside object construction found')
+    run.require_count(n >= 1 or run.fixture_mode, 'R-CNT-CON(g): no reset of con_active outside object construction found')
 
 
 def run_flush_order(run, P):
@@ -594,4 +594,77 @@ def run_flush_order(run, P):
                 run.violation('R-CNT-CON', f['name'], cev['loc'], 'flush-before-decrement',
                               'coap_session_connected() is called under a test of con_active, but no decrement of con_active under that test comes before it: the delay queue is '
                               'looked at while the finished exchange still occupies its slot, nothing is released, and no later flush follows the decrement', [])
-    run.require(n >= (5 if run.cfg == 'base' else 3) or run.fixture_mode, 'R-CNT-CON(h): fewer than 5 flushes of the delay queue under a test of con_active found')
+    run.require_count(n >= (5 if run.cfg == 'base' else 3) or run.fixture_mode, 'R-CNT-CON(h): fewer than 5 flushes of the delay queue under a test of con_active found')
+
+
+def run_scan_head(run, P):
+    """R-CNT-CON (i) (a drain misses nothing): the "unlink with predecessor" scan -- `p = HEAD; q = p->next; while (q) { if (q->session == S)
+    unlink q ... }` -- never looks at the element it starts from.  So where such a scan starts, the path knows that the head does not
+    belong to S (`HEAD->session == S` known false: the exit of the loop that strips matching heads) -- or there is no head.  A head
+    stripping step that runs once instead of until it fails leaves the second of two matching heads in the queue: after a session
+    failure that node gets no NACK and keeps being retransmitted while con_active was reset to 0 -- NSTART + 1 in flight."""
+    run.rule('R-CNT-CON')
+    n = 0
+    for f in sorted(P.lib_funcs(), key=lambda f: f['name']):
+        sps = [p for p in f.get('params') or () if p.get('prec') == 'coap_session_t']
+        if len(sps) != 1:
+            continue
+        S = 'v%s' % sps[0]['id']
+        starts = []
+        evs = [(b, ev) for b, ev in P.events(f) if ev.get('top', True) and ev['e'].get('k') == 'asg' and ev['e'].get('op') == '=']
+        for i, (b, ev) in enumerate(evs):
+            t = ev['e']
+            l, r = strip(t['l']), strip(t['r'])
+            if not (isinstance(l, dict) and l.get('k') == 'var' and isinstance(r, dict) and r.get('k') == 'mem' and r.get('f') != 'next' and ap(r)):
+                continue
+            # followed, in the same block, by  q = p->next  with q another local
+            for b2, ev2 in evs[i + 1:i + 2]:
+                r2 = strip(ev2['e']['r'])
+                l2 = strip(ev2['e']['l'])
+                if b2['id'] == b['id'] and isinstance(l2, dict) and l2.get('k') == 'var' and ap(l2) != ap(l) and \
+                   isinstance(r2, dict) and r2.get('k') == 'mem' and r2.get('f') == 'next' and ap(r2.get('b')) == ap(l) and ap(ev2['e']['l']):
+                    starts.append((ev, ap(r), short(r), ap(ev2['e']['l'])))
+        if not starts:
+            continue
+        # the scan judges q->session == S
+        judged = False
+        for b in f['blocks']:
+            c = (b.get('term') or {}).get('cond')
+            if c is not None:
+                for x in walk(c):
+                    if isinstance(x, dict) and x.get('k') == 'bin' and x.get('op') in ('==', '!='):
+                        sides = [strip(x['l']), strip(x['r'])]
+                        if any(isinstance(s_, dict) and s_.get('k') == 'mem' and s_.get('f') == 'session' and ap(s_.get('b')) in [st[3] for st in starts] for s_ in sides) and \
+                           any(isinstance(s_, dict) and ap(s_) == S for s_ in sides):
+                            judged = True
+        if not judged:
+            continue
+        name = f['name']
+        heads = set(st[1] for st in starts)
+
+        def is_rule_event(ev):
+            return any(ev is st[0] for st in starts)
+        keys, R = relevance(f, is_rule_event, heads | {S})
+        R = set(R) | heads | {S}
+        rep = set()
+
+        def on_event(ev, env, ctx):
+            for sev, head, htxt, q in starts:
+                if ev is sev:
+                    want = head + '->session'
+                    known = env.nullf(head) == 'Z'
+                    for ak, av in env.atoms.items():
+                        if S in ak and want in ak and (('==' in ak and av is False) or ('!=' in ak and av is True)):
+                            known = True
+                    run.oblige('R-CNT-CON', known, '%s:scan-starts-behind-a-foreign-head' % name)
+                    if not known and ev['loc'] not in rep:
+                        rep.add(ev['loc'])
+                        run.violation('R-CNT-CON', name, ev['loc'], 'scan-skips-matching-head',
+                                      'the predecessor scan starts at %s without knowing that this element does not belong to the session: the scan only ever examines the elements '
+                                      'behind it, so a matching head survives the drain -- no NACK, still retransmitted, not counted' % htxt, ctx.path())
+            return None
+        n += 1
+        run.instance('R-CNT-CON', '%s: the unlink-with-predecessor scan starts behind a head known not to match' % name)
+        solve(f, Env(), on_event, None, keys, R,
+              key_fn=lambda e: (tuple(sorted((k, v) for k, v in e.atoms.items() if S in k and '->session' in k)), tuple(e.nullf(h) for h in sorted(heads))))
+    run.require_count(n >= 1 or run.fixture_mode or run.cfg != 'base', 'R-CNT-CON(i): no unlink-with-predecessor scan over a session\'s queue nodes found (expected coap_cancel_session_messages)')
